@@ -372,6 +372,14 @@ impl TryFrom<Envelope> for Response {
             bail!("Invalid response - must have either a result or an error, but not both")
         }
 
+        // Exactly one of them, and nothing of the other: several results next
+        // to an error (or the reverse) is both, not one.
+        let result_count = envelope.assertions_with_predicate(known_values::RESULT).len();
+        let error_count = envelope.assertions_with_predicate(known_values::ERROR).len();
+        if result_count + error_count != 1 {
+            bail!("Invalid response - must have either a result or an error, but not both")
+        }
+
         if result.is_ok() {
             let id = envelope
                 .subject().try_leaf()?
